@@ -16,7 +16,7 @@ RULE = ("E-HIST: breadth-first search over every history of construct/export ope
         "LinearScales with equal-span domains at different offsets, explicit domain; together using every option group - up to depth 8 with one back-end per spec (thorough: both back-ends, 6 specs, depth 7). Every history is replayed from a purged, re-imported library; "
         "states are deduplicated by a fingerprint of the instances AND all labella module/class globals (aliasing included). "
         "Oracle: every export is byte-identical to the export of the same spec alone in a fresh interpreter process. "
-        "Plus every ordered pair of 20 default-scale timelines spanning 40 s .. 15 y anchored around one calendar boundary (all tick units), built one after the other; plus three exports in a row of one default-scale timeline for every data extent start x span (8 starts, thorough 16, x the span ladder 1 s .. 200 y x factors {1, 1.37, 0.73}), each compared with the export of a fresh timeline. Non-trivial: an export made after a different spec was constructed or exported since this instance was built.")
+        "Plus every ordered pair of 32 default-scale timelines spanning 40 s .. 67 y (incl. multi-year extents on either side of the year-step thresholds) anchored around one calendar boundary (all tick units), built one after the other; plus three exports in a row of one default-scale timeline for every data extent start x span (8 starts, thorough 16, x the span ladder 1 s .. 200 y x factors {1, 1.37, 0.73}), each compared with the export of a fresh timeline. Non-trivial: an export made after a different spec was constructed or exported since this instance was built.")
 ASSUMPTIONS = ["reference documents come from fresh subprocesses started by the check (one per spec and back-end)",
                "data and options are deep-copied per construction; caller-side sharing is outside the claim"]
 REQUIRED_COUNTERS = ("exports_checked", "exports_after_other_spec", "repeated_exports", "pair_exports", "repeat_exports",
@@ -168,6 +168,9 @@ def ops_for(specs, backends=None):
 # (seconds ... years) must not influence the other
 PAIR_BASE = dt(2021, 2, 1)
 PAIR_SPANS = [40, 240, 3000, 18000, 97200, 3 * 86400, 20 * 86400, 100 * 86400, 1096 * 86400, 5479 * 86400]  # seconds
+# multi-year extents on either side of the spans at which the year step switches (13.33, 28.57, 66.67 years for 10 ticks),
+# two per whole-year bucket
+PAIR_SPANS += [int(y * 365.25 * 86400) for y in (13.1, 13.6, 28.2, 28.9, 66.2, 66.9)]
 
 
 def pair_specs():
